@@ -81,3 +81,35 @@ Fixpoint kfailing_from (i : N) (l : list kcase) : list (N * (N * N)) :=
   | g :: l' => let c := kcase_code g in if N.eqb c 0 then kfailing_from (N.succ i) l' else (i, (c, 0%N)) :: kfailing_from (N.succ i) l'
   end.
 Definition kfailing (l : list kcase) : list (N * (N * N)) := kfailing_from 0 l.
+
+(** * GearCorr: the gear formulas (binary64) against gearpy *)
+From GP Require Import Gears.
+Section GearCorr.
+Variable O : oracle.
+Notation FX := (FA O).
+Inductive gexp := GQ (v : float) (u : string) | GNum (v : float) | GErr (e : exn).
+Inductive gcall :=
+  | GForce (g : @gear FX) (r : option role) (ltq dtq : qty FX)
+  | GLewis (g : @gear FX)
+  | GBend (g : @gear FX) (r : option role) (mate : option (@gear FX)) (ft : qty FX)
+  | GContact (g : @gear FX) (r : option role) (mate : option (@gear FX)) (ft : qty FX).
+Definition gq_ok (r : res (qty FX)) (e : gexp) : bool :=
+  match r, e with
+  | Ok q, GQ v u => fbits_eq (qv q) v && String.eqb (qu q) u
+  | Err x, GErr y => exn_eqb x y
+  | _, _ => false end.
+Definition gcase_ok (c : gcall * gexp) : bool :=
+  match fst c with
+  | GForce g r l d => gq_ok (tangential_force g r l d) (snd c)
+  | GLewis g => match lewis_factor g, snd c with Ok y, GNum v => fbits_eq y v | Err x, GErr y => exn_eqb x y | _, _ => false end
+  | GBend g r m ft => gq_ok (bending_stress g r m ft) (snd c)
+  | GContact g r m ft => gq_ok (contact_stress g r m ft) (snd c)
+  end.
+Fixpoint gearfailing_from (i : N) (l : list (gcall * gexp)) : list (N * (N * N)) :=
+  match l with
+  | [] => []
+  | c :: l' => if gcase_ok c then gearfailing_from (N.succ i) l'
+              else (i, (match fst c with GForce _ _ _ _ => 1 | GLewis _ => 2 | GBend _ _ _ _ => 3 | GContact _ _ _ _ => 4 end, 0)%N) :: gearfailing_from (N.succ i) l'
+  end.
+Definition gearfailing (l : list (gcall * gexp)) : list (N * (N * N)) := gearfailing_from 0 l.
+End GearCorr.
